@@ -13,8 +13,12 @@ An op may be prefixed `@k `: rewind to the state after the first k operations of
 current path, then apply the op. The model side rewinds its (pure) state; the real side
 rebuilds a fresh object and replays the k operations. One case can thus carry a whole
 tree of operation sequences (one protocol line per tree edge).
-Value tokens: i<int> (an int), s<int> (the str "s<int>"), M/E/U (MISSING/EMPTY/UNCHANGED);
-getter tokens additionally !A !R !V !K !T (the getter raises that class).
+Value tokens: i<int> (an int; i0 is falsy), s<int> (the str "s<int>"), M/E/U (MISSING/EMPTY/UNCHANGED),
+N/F/e/L (the falsy None / False / "" / []); getter tokens additionally !A !R !V !K !T (the getter raises
+that class) and z (a falsy value depending on the class the classproperty getter runs on: 0, "", None).
+"build" says how the descriptor is put together: "ctor" (everything through the constructor), "deco"
+(decorator-with-options, then .setter/.deleter), "chain-gsd"/"chain-dsg" (.getter/.setter/.deleter chains
+in two orders starting from a getter-less property); all must behave like the nominal configuration.
 """
 import itertools
 
@@ -25,6 +29,8 @@ DRIVER = "Drivers/C12.lean"
 REQUIRED_THEOREMS = [
     "SpecVerif.Props.C12.protocol",
     "SpecVerif.Props.C12.read_protocol",
+    "SpecVerif.Props.C12.cache_hit_stable",
+    "SpecVerif.Props.C12.override_stable",
     "SpecVerif.Props.C12.set_rejected",
     "SpecVerif.Props.C12.delete_semantics",
     "SpecVerif.Props.C12.custom_accessors",
@@ -42,12 +48,16 @@ REQUIRED_THEOREMS = [
 RULE = (
     "spec_property: every one of the 16 (overridable, cache, setter, deleter) combinations x 4 hosts (plain class, "
     "spec class without annotation, spec class with managed int annotation, the same with a preparer) x EVERY "
-    "operation sequence of the stated length over {read, assign i1, assign i2, delete, bump underlying state} "
-    "(sequences of maximal length; every shorter sequence is a prefix and is compared step by step), then a seeded "
+    "operation sequence up to length 5 (quick) / 6, and 7 on the plain and preparer hosts (thorough) over "
+    "{read, assign 0, assign 2, delete, bump underlying state} with getter results alternating falsy and truthy "
+    "values (0, 11, False, 13, '', 15, None, 17, []), the descriptor built in four ways (constructor, decorator with "
+    "options, .getter/.setter/.deleter chains in two orders) rotating over the subtrees, walked as a tree with one compared protocol line per "
+    "edge (`@k op` rewinds to depth k; the real side rebuilds the object and replays), then a seeded "
     "malformed stream (getters returning sentinels / ill-typed values / raising, assignment of sentinels and ill-typed "
-    "values, no getter, allow_attribute_error off) with sequences up to length 12; classproperty: 32 "
+    "values incl. the falsy None/False/''/[]/0, falsy preparer results, no getter, allow_attribute_error off) with "
+    "sequences up to length 12; classproperty: 32 "
     "(overridable, cache, cache_per_subclass, setter, deleter) combinations over a three-class chain A>B>C, every "
-    "sequence of the stated length over a 13-letter alphabet of reads/assignments/deletions through classes and "
+    "sequence up to length 3 (quick) / 4 (thorough) over a 13-letter alphabet of reads/assignments/deletions through classes and "
     "instances and bump, then seeded random sequences over the full 25-letter alphabet. A step is non-trivial when "
     "it changed the slot/cache/log or raised; distinct = distinct (kind, configuration, host, pre-state, operation)."
 )
@@ -63,18 +73,22 @@ ASSUMPTIONS = [
 ]
 
 HOSTS = ["plain", "spec", "specann", "specprep"]
-SP_ALPHABET = ["r", "a i1", "a i2", "d", "b"]
+SP_ALPHABET = ["r", "a i0", "a i2", "d", "b"]  # assigned values: the falsy int 0 and a truthy int
 DEEP_HOSTS = ("plain", "specprep")  # thorough tier: one op deeper on these two hosts
-MAIN_TABLE = [f"i{10 + k}" for k in range(16)]
+# getter results by underlying state: falsy and truthy values alternate (0, False conform to int; "", None, [] do not)
+MAIN_TABLE = ["i0", "i11", "F", "i13", "e", "i15", "N", "i17", "L", "i19", "i0", "i21"]
+# classproperty: `z` is a falsy value that still tells the class the getter ran on (0 / "" / None)
+CP_TABLE = ["z", "i11", "z", "i13", "F", "i15", "L", "i17", "N", "i19"]
+BUILDS = ["deco", "ctor", "chain-gsd", "chain-dsg"]
 CP_SMALL = [
     "r c0", "r c1", "r c2", "r o1",
-    "a o0 i1", "a o1 i1", "a o2 i1", "a c1 i2",
+    "a o0 i0", "a o1 i0", "a o2 i0", "a c1 i2",
     "d o0", "d o1", "d o2", "d c2",
     "b",
 ]
 CP_FULL = (
     [f"r {t}{k}" for t in "co" for k in range(3)]
-    + [f"a {t}{k} {v}" for t in "co" for k in range(3) for v in ("i1", "i2")]
+    + [f"a {t}{k} {v}" for t in "co" for k in range(3) for v in ("i0", "i2")]
     + [f"d {t}{k}" for t in "co" for k in range(3)]
     + ["b"]
 )
@@ -103,9 +117,23 @@ ERRS = (
 )
 
 
+class _PerClassFalsy:
+    """getter-table entry `z`"""
+
+
+PCF = _PerClassFalsy()
+FALSY = {"N": None, "F": False, "e": ""}
+
+
 def untok(t):
     if t in ("M", "E", "U"):
         return _S[t]
+    if t in FALSY:
+        return FALSY[t]
+    if t == "L":
+        return []
+    if t == "z":
+        return PCF
     if t in EXC:
         return EXC[t]
     if t[0] == "i":
@@ -122,12 +150,18 @@ def tok(v):
         return "E"
     if v is _S["U"]:
         return "U"
+    if v is None:
+        return "N"
+    if v is False:
+        return "F"
     if isinstance(v, bool):
         return f"?{v!r}"
     if isinstance(v, int):
         return f"i{v}"
     if isinstance(v, str):
-        return v
+        return v if v else "e"
+    if isinstance(v, list) and not v:
+        return "L"
     return f"?{v!r}"
 
 
@@ -140,9 +174,9 @@ def err_name(e):
 
 def the_preparer(self, v):
     """`_prepare_x` of the `specprep` host (mirrored by `thePreparer` in the driver and `o_prep` in the oracle)."""
-    if isinstance(v, int):
-        return _S["M"] if v == 99 else v + 1000
-    if isinstance(v, str):
+    if isinstance(v, int):  # bool included: False + 1000 == 1000
+        return _S["M"] if v == 99 else 0 if v == 98 else v + 1000
+    if isinstance(v, str) and v:
         n = int(v[1:])
         return n + 2000 if n % 2 == 0 else v
     return v
@@ -159,6 +193,8 @@ def _fget(self):
     r = tab[d["_n"] % len(tab)]
     if isinstance(r, type) and issubclass(r, BaseException):
         raise r("raised by the getter")
+    if r is PCF:
+        return 0
     return r
 
 
@@ -170,19 +206,37 @@ def _fdel(self):
     self.__dict__["_log"].append("D")
 
 
-def sp_class(cfg, host, hg, aae):
-    key = (cfg, host, hg, aae)
+def build_prop(factory, fget, fset, fdel, kw, build):
+    """The same nominal configuration put together in different ways."""
+    if build == "ctor":
+        return factory(fget, fset, fdel, **kw)
+    if build == "deco":
+        p = factory(**kw)(fget) if fget else factory(None, **kw)
+        links = [("setter", fset), ("deleter", fdel)]
+    elif build == "chain-gsd":
+        p = factory(None, **kw)
+        links = [("getter", fget), ("setter", fset), ("deleter", fdel)]
+    elif build == "chain-dsg":
+        p = factory(None, **kw)
+        links = [("deleter", fdel), ("setter", fset), ("getter", fget)]
+    else:
+        raise ValueError(build)
+    for name, fn in links:
+        if fn is not None:
+            p = getattr(p, name)(fn)
+    return p
+
+
+def sp_class(cfg, host, hg, aae, build="deco"):
+    key = (cfg, host, hg, aae, build)
     cls = _S["classes"].get(key)
     if cls is not None:
         return cls
     ov, ca, fs, fd = (c == "1" for c in cfg)
-    p = _S["spec_property"](
-        _fget if hg else None, overridable=ov, cache=ca, allow_attribute_error=bool(aae)
+    p = build_prop(
+        _S["spec_property"], _fget if hg else None, _fset if fs else None, _fdel if fd else None,
+        dict(overridable=ov, cache=ca, allow_attribute_error=bool(aae)), build,
     )
-    if fs:
-        p = p.setter(_fset)
-    if fd:
-        p = p.deleter(_fdel)
     ns = {"x": p}
     if host in ("specann", "specprep"):
         ns["__annotations__"] = {"x": int}
@@ -196,7 +250,7 @@ def sp_class(cfg, host, hg, aae):
 
 
 def sp_new(case):
-    cls = sp_class(case["cfg"], case["host"], case.get("hg", 1), case.get("aae", 1))
+    cls = sp_class(case["cfg"], case["host"], case.get("hg", 1), case.get("aae", 1), case.get("build", "deco"))
     o = cls()
     o.__dict__.update(_n=0, _tab=[untok(t) for t in case["getter"]], _log=[])
     return o
@@ -237,7 +291,9 @@ class Chain:
             r = tab[st["n"] % len(tab)]
             if isinstance(r, type) and issubclass(r, BaseException):
                 raise r("raised by the getter")
-            if isinstance(r, int):
+            if r is PCF:
+                return (0, "", None)[cls._idx]
+            if isinstance(r, int) and not isinstance(r, bool) and r >= 10:
                 return r + cls._base
             return r
 
@@ -247,15 +303,11 @@ class Chain:
         def fdel(cls):
             st["log"].append(f"D{cls._idx}")
 
-        p = _S["classproperty"](
-            fget if case.get("hg", 1) else None,
-            overridable=ov, cache=ca, cache_per_subclass=ps,
-            allow_attribute_error=bool(case.get("aae", 1)),
+        p = build_prop(
+            _S["classproperty"], fget if case.get("hg", 1) else None, fset if fs else None, fdel if fd else None,
+            dict(overridable=ov, cache=ca, cache_per_subclass=ps, allow_attribute_error=bool(case.get("aae", 1))),
+            case.get("build", "deco"),
         )
-        if fs:
-            p = p.setter(fset)
-        if fd:
-            p = p.deleter(fdel)
         A = type("A", (), {"x": p, "_base": 100, "_idx": 0})
         B = type("B", (A,), {"_base": 200, "_idx": 1})
         C = type("C", (B,), {"_base": 300, "_idx": 2})
@@ -372,20 +424,6 @@ def real_lines(case):
     return out
 
 
-def maximal_paths(case):
-    """The root-to-leaf operation sequences of the tree a case walks."""
-    paths, path = [], []
-    for line in case["ops"]:
-        k, op = split_op(line, len(path))
-        if k < len(path):
-            paths.append(path)
-            path = path[:k]
-        path = path + [op]
-    if path:
-        paths.append(path)
-    return paths
-
-
 # ---------------------------------------------------------------------------
 # independent oracle: the protocol of the property text as an explicit
 # (set-valued, where the text is silent) state machine
@@ -393,17 +431,20 @@ def maximal_paths(case):
 
 ANY = "<any>"  # an override whose value the text does not determine (bound by the next read)
 SENT = ("M", "E", "U")
+FALSY_TOKENS = ("i0", "N", "F", "e", "L")
 
 
 def o_conforms(t):
-    return t[0] == "i"
+    return t[0] == "i" or t == "F"  # check_type(False, int) holds (bool is an int)
 
 
 def o_prep(t):
     """the attribute's preparer, on tokens"""
     if t[0] == "i":
         n = int(t[1:])
-        return "M" if n == 99 else f"i{n + 1000}"
+        return "M" if n == 99 else "i0" if n == 98 else f"i{n + 1000}"
+    if t == "F":
+        return "i1000"
     if t[0] == "s":
         n = int(t[1:])
         return f"i{n + 2000}" if n % 2 == 0 else t
@@ -440,6 +481,8 @@ def sp_options(case, st, op, n):
             if name == "AttributeError" and not case.get("aae", 1):
                 name = "NestedAttributeError"
             return [("err " + name, st, None)]
+        if g == "z":
+            g = "i0"
         lenient = False
         if managed:
             if g in SENT:
@@ -605,7 +648,12 @@ def cp_options(case, st, op, n):
             if name == "AttributeError" and not case.get("aae", 1):
                 name = "NestedAttributeError"
             return [("err " + name, st, None)]
-        v = f"i{int(g[1:]) + 100 * (k + 1)}" if g[0] == "i" else g
+        if g == "z":
+            v = ("i0", "e", "N")[k]
+        elif g[0] == "i" and int(g[1:]) >= 10:
+            v = f"i{int(g[1:]) + 100 * (k + 1)}"
+        else:
+            v = g
         if not ca:
             return [("val " + v, st, None)]
         if v in SENT:
@@ -639,8 +687,9 @@ def oracle(case):
 
 SP_CFGS = ["".join(b) for b in itertools.product("01", repeat=4)]
 CP_CFGS = ["".join(b) for b in itertools.product("01", repeat=5)]
-G_POOL = ["i10", "i11", "i12", "i13", "s1", "s2", "s3", "s4", "M", "E", "U", "!A", "!R", "!K", "i99"]
-A_POOL = ["i1", "i2", "i3", "s1", "s2", "M", "E", "U", "i99"]
+G_POOL = ["i10", "i11", "i12", "i13", "s1", "s2", "s3", "s4", "M", "E", "U", "!A", "!R", "!K", "i99",
+          "i0", "N", "F", "e", "L", "i98", "z"]
+A_POOL = ["i1", "i2", "i3", "s1", "s2", "M", "E", "U", "i99", "i0", "N", "F", "e", "L", "i98"]
 
 
 def sp_random(rng, malformed, maxlen):
@@ -653,10 +702,10 @@ def sp_random(rng, malformed, maxlen):
         pool = ["r", "r", "d", "b", "b"] + ["a " + v for v in A_POOL]
     else:
         tab, hg, aae = MAIN_TABLE, 1, 1
-        pool = SP_ALPHABET + ["r"]
+        pool = SP_ALPHABET + ["r", "a F", "a i1"]
     ops = [rng.choice(pool) for _ in range(rng.randint(1, maxlen))]
-    return {"kind": "sp", "cfg": cfg, "host": host, "hg": hg, "aae": aae, "getter": list(tab), "ops": ops,
-            "origin": "sp-malformed" if malformed else "sp-random"}
+    return {"kind": "sp", "cfg": cfg, "host": host, "hg": hg, "aae": aae, "build": rng.choice(BUILDS),
+            "getter": list(tab), "ops": ops, "origin": "sp-malformed" if malformed else "sp-random"}
 
 
 def cp_random(rng, malformed, maxlen):
@@ -665,13 +714,13 @@ def cp_random(rng, malformed, maxlen):
         tab = [rng.choice(G_POOL) for _ in range(rng.randint(1, 4))]
         hg = 0 if rng.random() < 0.08 else 1
         aae = 0 if rng.random() < 0.3 else 1
-        pool = CP_FULL + [f"a {t}{k} {v}" for t in "co" for k in range(3) for v in ("s1", "M", "U")]
+        pool = CP_FULL + [f"a {t}{k} {v}" for t in "co" for k in range(3) for v in ("s1", "M", "U", "N", "F", "e", "L")]
     else:
-        tab, hg, aae = MAIN_TABLE, 1, 1
-        pool = CP_FULL
+        tab, hg, aae = CP_TABLE, 1, 1
+        pool = CP_FULL + [f"a o{k} {v}" for k in range(3) for v in ("N", "e")]
     ops = [rng.choice(pool) for _ in range(rng.randint(1, maxlen))]
-    return {"kind": "cp", "cfg": cfg, "hg": hg, "aae": aae, "getter": list(tab), "ops": ops,
-            "origin": "cp-malformed" if malformed else "cp-random"}
+    return {"kind": "cp", "cfg": cfg, "hg": hg, "aae": aae, "build": rng.choice(BUILDS), "getter": list(tab),
+            "ops": ops, "origin": "cp-malformed" if malformed else "cp-random"}
 
 
 def gen_cases(tier, rng):
@@ -693,17 +742,19 @@ def gen_cases(tier, rng):
     for cfg in SP_CFGS:
         for host in HOSTS:
             depth = sp_len + 1 if (tier == "thorough" and host in DEEP_HOSTS) else sp_len
-            for prefix in itertools.product(SP_ALPHABET, repeat=2):
-                yield {"kind": "sp", "cfg": cfg, "host": host, "hg": 1, "aae": 1, "getter": MAIN_TABLE,
-                       "ops": tree_ops(list(prefix), SP_ALPHABET, depth), "origin": "sp-exhaustive"}
+            for i, prefix in enumerate(itertools.product(SP_ALPHABET, repeat=2)):
+                # the four ways of building the descriptor rotate over the 25 subtrees of each (cfg, host)
+                yield {"kind": "sp", "cfg": cfg, "host": host, "hg": 1, "aae": 1, "build": BUILDS[i % 4],
+                       "getter": MAIN_TABLE, "ops": tree_ops(list(prefix), SP_ALPHABET, depth),
+                       "origin": "sp-exhaustive"}
     for _ in range(n_sp_rand):
         yield sp_random(rng, False, 12)
     for _ in range(n_sp_mal):
         yield sp_random(rng, True, 12)
     # --- classproperty, exhaustive over the small alphabet: one case per (cfg, first op)
     for cfg in CP_CFGS:
-        for first in CP_SMALL:
-            yield {"kind": "cp", "cfg": cfg, "hg": 1, "aae": 1, "getter": MAIN_TABLE,
+        for i, first in enumerate(CP_SMALL):
+            yield {"kind": "cp", "cfg": cfg, "hg": 1, "aae": 1, "build": BUILDS[i % 4], "getter": CP_TABLE,
                    "ops": tree_ops([first], CP_SMALL, cp_len), "origin": "cp-exhaustive"}
     for _ in range(n_cp_rand):
         yield cp_random(rng, False, 10)
@@ -740,6 +791,21 @@ def shrink(case, at=None):
         yield {**case, "ops": path[:i] + path[i + 1:]}
 
 
+def extra(tier, rng):
+    """Nothing is validated outside the line protocol; this only reports how many distinct operation
+    sequences the tree-shaped exhaustive cases stand for."""
+    sp_len, cp_len = (5, 3) if tier == "quick" else (6, 4)
+    n_sp = 0
+    for host in HOSTS:
+        d = sp_len + 1 if (tier == "thorough" and host in DEEP_HOSTS) else sp_len
+        n_sp += len(SP_CFGS) * sum(len(SP_ALPHABET) ** k for k in range(2, d + 1))
+    n_cp = len(CP_CFGS) * sum(len(CP_SMALL) ** k for k in range(1, cp_len + 1))
+    return {"evaluations": 0, "info": {
+        "spec_property_sequences_exhaustive": n_sp, "classproperty_sequences_exhaustive": n_cp,
+        "note": "each tree edge is one compared protocol line; every sequence of the tree is judged by the oracle",
+    }}
+
+
 _seen_keys = set()
 
 
@@ -760,8 +826,9 @@ def steps(case, real):
 
 def nontrivial(case, real):
     keys = []
-    cfg = (case["kind"], case["cfg"], case.get("host", ""), case.get("hg", 1), case.get("aae", 1))
-    gk = 0 if case["getter"] == MAIN_TABLE else tuple(case["getter"][:4])
+    cfg = (case["kind"], case["cfg"], case.get("host", ""), case.get("hg", 1), case.get("aae", 1),
+           case.get("build", "deco"))
+    gk = 0 if case["getter"] in (MAIN_TABLE, CP_TABLE) else tuple(case["getter"][:4])
     for op, pre, post in steps(case, real):
         if post.startswith("err") or post.split(" ;; ", 1)[-1] != pre:
             k = (cfg, pre, op, gk)
@@ -772,7 +839,7 @@ def nontrivial(case, real):
 
 
 def tags(case, real):
-    t = [f"origin:{case.get('origin', 'corpus')}"]
+    t = [f"origin:{case.get('origin', 'corpus')}", f"build:{case['kind']}:{case.get('build', 'deco')}"]
     if case["kind"] == "sp":
         t.append("host:" + case["host"])
     depth = 0
@@ -783,13 +850,19 @@ def tags(case, real):
     for op, pre, post in steps(case, real):
         t.append(f"op:{case['kind']}:{op[0]}")
         head = post.split(" ;; ")[0]
+        if head.startswith("val ") and head[4:] in FALSY_TOKENS:
+            # a falsy value was read; `hit` when it came from the slot/cache rather than from the getter
+            hit = pre.split(" ;; ")[0] not in ("-", "{}")
+            t.append(f"falsy-read:{case['kind']}:{'stored' if hit else 'fresh'}")
+        if op[0] == "a" and op.rsplit(" ", 1)[-1] in FALSY_TOKENS:
+            t.append(f"falsy-assign:{case['kind']}")
         if head.startswith("err"):
             t.append(f"{case['kind']}:{head.replace(' ', ':')}")
     return t
 
 
 MANIFEST_ENTRY = {
-    "level_text": "Lean 4 proof, for a universally quantified configuration (overridable, cache, custom setter, custom deleter, plain/spec host, managed annotation, preparer, getter present, allow_attribute_error: all combinations at once) and operation sequences of any length, that the Impl model of spec_property.__get__/__set__/__delete__ (one instance-dict slot) refines the override/cache/getter protocol of the property text (ghost override and cache; invariant relating the slot to them): a read returns the override if set, else the value cached since the last deletion when caching is on, else the prepared and type-checked getter result on current state; assignment with neither overridable nor a setter raises AttributeError and changes nothing; deletion clears or raises; custom accessors are called exactly once and leave the slot alone; every value read on a managed spec-class attribute conforms to the annotation; the same protocol per cache key for classproperty over an arbitrary set of classes, per-subclass independence over whole operation sequences, a single shared slot otherwise, instance access acting on type(obj). The model is tied to /repo on every run by executing EVERY operation sequence of the stated length over {read, assign v1, assign v2, delete, bump} for all 16 option combinations on four hosts (and the classproperty analogue over a three-class chain) on the real descriptors and on the model, comparing value / exception class / slot or cache dict / accessor-call log after every step; an independent explicit state machine written from the property text judges every case.",
+    "level_text": "Lean 4 proof, for a universally quantified configuration (overridable, cache, custom setter, custom deleter, plain/spec host, managed annotation, preparer, getter present, allow_attribute_error: all combinations at once) and operation sequences of any length, that the Impl model of spec_property.__get__/__set__/__delete__ (one instance-dict slot) refines the override/cache/getter protocol of the property text (ghost override and cache; invariant relating the slot to them): a read returns the override if set, else the value cached since the last deletion when caching is on, else the prepared and type-checked getter result on current state; cached and overridden values are stable under changes of the underlying state; assignment with neither overridable nor a setter raises AttributeError and changes nothing; deletion clears or raises; custom accessors are called exactly once and leave the slot alone; every value read on a managed spec-class attribute conforms to the annotation; the same protocol per cache key for classproperty over an arbitrary set of classes, per-subclass independence over whole operation sequences, a single shared slot otherwise, instance access acting on type(obj). The model is tied to /repo on every run by executing EVERY operation sequence up to length 5 (quick tier) / 6-7 (thorough) over {read, assign v1, assign v2, delete, bump} for all 16 option combinations on four hosts (and the classproperty analogue, 32 combinations over a three-class chain, length 3 / 4) on the real descriptors and on the model, with falsy values (0, False, '', None, []) in every value position and the descriptor built in four ways (constructor, decorator with options, two .getter/.setter/.deleter chain orders), comparing value / exception class / slot or cache dict / accessor-call log after every step; an independent explicit state machine written from the property text judges every case.",
     "level_note": "Trusted: Lean kernel; axioms propext/Classical.choice/Quot.sound only; the hand-written model (incl. the spec-class assignment layer in front of the descriptor) and the correspondence harness. The theorems are about the model; the per-run correspondence ties them to the code. Not covered: invalidated_by (C11), warn_on_override, frozen spec classes, collection-typed annotations, plain `Cls.x = v` rebinding of a classproperty.",
     "technique": "Lean 4 refinement proof (ghost-state invariant, induction over operation sequences) over a hand-written model; exhaustive small-scope differential correspondence against the real descriptors",
 }
